@@ -157,6 +157,10 @@ class RibCtx(BaseCtx):
             wd = wd + [rng.pick(wd)]              # a prefix listed twice among the withdrawn routes (redundant, legal)
             self.stats["gen:duplicate_withdrawn_prefix"] += 1
         attrs = self.attrs_for(rng.randrange(len(ATTRSETS)), False) if nl else {}
+        if nl and rng.chance(0.05):
+            # announcement without any path attribute (Total Path Attribute Length 0): yabgp installs it
+            attrs = {}
+            self.stats["gen:announcement_without_attributes"] += 1
         dirty = None
         if rng.chance(0.25):
             dirty = rng.pick([0xFF, 0x55, 0x01])      # padding bits of the prefixes are not zero
@@ -169,7 +173,14 @@ class RibCtx(BaseCtx):
             rng.shuffle(tlvs)
             raw = b"".join(rp.attr_tlv(fl, code, val) for fl, code, val in tlvs)
             self.stats["gen:attributes_in_unusual_order"] += 1
-        return rp.encode_update(wd, attrs, nl, as4=self.as4, dirty=dirty, raw_attrs=raw)
+        msg = rp.encode_update(wd, attrs, nl, as4=self.as4, dirty=dirty, raw_attrs=raw)
+        if attrs and rng.chance(0.06):
+            # the NLRI field ends in an impossible prefix (length 33): an erroneous UPDATE - whatever else it
+            # carries (withdrawals of present routes, good attributes) must not be applied
+            body = msg[19:] + bytes([33, 10, 0, 0, 0, 1])
+            self.stats["gen:update_with_invalid_nlri_field"] += 1
+            return rp.frame(rp.UPDATE, body)
+        return msg
 
     def base_attr_bytes(self):
         return rp.encode_attrs({"origin": 0, "as_path": [(2, [self.cfg["remote_as"]])]}, self.as4)
@@ -220,6 +231,9 @@ class RibCtx(BaseCtx):
         if not nl and not wd:
             nl = [rng.pick(PREFIXES)]
         b = {}
+        if nl and not wd and rng.chance(0.06):
+            self.stats["gen:rest_routes_without_attributes"] += 1
+            return {"nlri": nl}
         if nl:
             i = rng.randrange(3)
             b["attr"] = {"1": ATTRSETS[i]["origin"], "2": [[2, ATTRSETS[i]["path"]]], "3": "10.0.0.1", "5": 100 + i}
@@ -329,6 +343,12 @@ class RibCtx(BaseCtx):
             js = w.last_rest.get("json")
             if path.endswith("send/update") and isinstance(js, dict) and js.get("status") is True:
                 self.on_tx_update(op[4], v_before, v_after)
+            elif path.endswith("send/update") and isinstance(js, dict) and isinstance(op[4], dict) and op[4].get("nlri") \
+                    and not op[4].get("attr") and not op[4].get("withdraw"):
+                # routes without attributes: yabgp records the request in Adj-RIB-Out (with empty attributes)
+                # before it refuses to send it; the table the property speaks of is that one, so the model follows
+                self.stats["tx_request_saved_but_refused"] += 1
+                self.on_tx_update(op[4], v_before, v_after)
             elif path.endswith("adj-rib-in") and isinstance(js, dict):
                 self.on_query(op[4]["data"], js, self.rx["ipv4"], "adj-rib-in")
             elif path.endswith("adj-rib-out") and isinstance(js, dict):
@@ -340,6 +360,10 @@ class RibCtx(BaseCtx):
         for p in prefixes:
             got = data.get(p)
             present = bool(got)
+            if p in table and table[p] in ("[]", "{'__d': []}", "None"):
+                # a route stored with an empty attribute set answers like an absent one: not judged
+                self.stats["rib_query_of_route_without_attributes(not judged)"] += 1
+                continue
             if present != (p in table):
                 raise Violation("C19", "rib-query", "%s/%s" % (which, "missing" if p in table else "stale"),
                                 "POST %s for %s answered %s; model table %s" % (which, p, got, sorted(table)))
@@ -347,9 +371,22 @@ class RibCtx(BaseCtx):
     def on_rx_update(self, f, handler, v_before, v_after):
         w = self.world
         p = w.factory.fsm.protocol
-        d = rp.decode_update(f.body, self.as4)
-        reps = [h for h in handler if h[0] == "update_received"]
         fam_changed = {"ipv4": False, "flowspec": False, "mpls_vpn": False}
+        try:
+            d = rp.decode_update(f.body, self.as4)
+        except ValueError:
+            d = None
+        if d is None or any(h[0] == "on_update_error" for h in handler):
+            # an erroneous UPDATE (reported as such, or not decodable by the reference either): nothing of it
+            # is applied - tables and counters stay as they are
+            self.stats["rx_erroneous_update"] += 1
+            rib = p.adj_rib_in.get("ipv4", {})
+            if sorted(rib) != sorted(self.rx["ipv4"]):
+                raise Violation("C19", "rib-in", "erroneous-update-applied",
+                                "an UPDATE reported as malformed changed Adj-RIB-In: %s; model %s" % (sorted(rib), sorted(self.rx["ipv4"])))
+            self.version_check("rx", fam_changed, v_before, v_after, "erroneous UPDATE")
+            return
+        reps = [h for h in handler if h[0] == "update_received"]
         family = "ipv4"
         other = dict((c, (fl, bytes.fromhex(v))) for c, fl, v in d["attrs"].get("other", []))
         has_mp = 14 in other or 15 in other
@@ -476,7 +513,7 @@ class RibCtx(BaseCtx):
                 if pfx in tbl:
                     fam_changed["ipv4"] = True
                     del tbl[pfx]
-            for pfx in (body.get("nlri") or []) if attr else []:
+            for pfx in body.get("nlri") or []:
                 if tbl.get(pfx) != aid:
                     fam_changed["ipv4"] = True
                 tbl[pfx] = aid
